@@ -163,6 +163,53 @@ def task_full(a, env):
     return r_
 
 
+def aftersign_case(cfg, d, hhex):
+    """history: ecdsa_raw_sign first, then recovery attempts that reuse its (v, r): s = 0 mod N and
+    the other parity must be handled exactly as without the earlier call"""
+    S, m = L.get(cfg)
+    h = bytes.fromhex(hhex)
+    o = L.call(S.ecdsa_raw_sign, h, d.to_bytes(32, "big"))
+    out = []
+    if o[0] != "ok":
+        return out
+    v, r, s = o[1]
+    z = int.from_bytes(h, "big")
+    for (v2, s2, h2) in ((v, 0, h), (v, m.n, h), (v, 2 * m.n, b"\x01" * 32), (55 - v, s, h), (v, s, h), (v, s + m.n, h)):
+        z2 = int.from_bytes(h2, "big")
+        exp = _expected(m, None, v2, r, s2, z2)
+        got = _observe(S, h2, v2, r, s2)
+        out.append(((v2, s2), exp, got))
+    return out
+
+
+def task_aftersign(a, env):
+    r_ = R("recover-after-sign-histories")
+    for cfg in a["cfgs"]:
+        S, m = L.get(cfg)
+        for d in a["ds"]:
+            if not 1 <= d < m.n:
+                continue
+            for hhex in a["hs"]:
+                for (lbl, exp, got) in aftersign_case(cfg, d, hhex):
+                    r_.ev += 1
+                    r_.transitions += 1
+                    r_.dk.add((str(cfg), d, hhex, lbl))
+                    if exp != got:
+                        r_.viol("C19:%s:after-sign:%s" % ("full" if cfg == "full" else "tiny", _cls(exp, got)), ME + ":replay_aftersign",
+                                {"cfg": cfg, "d": hex(d), "h": hhex}, exp, got, note=str(lbl))
+                        break
+    r_.states = len(a["cfgs"])
+    r_.sample({"history": "sign(h, d) -> recover(h, (v, r, 0)), (v, r, N), other parity, honest s, s + N"})
+    return r_
+
+
+def replay_aftersign(a):
+    for (lbl, exp, got) in aftersign_case(a["cfg"], int(a["d"], 16), a["h"]):
+        if exp != got:
+            return {"call": lbl, "expected": exp, "observed": got}
+    return None
+
+
 def replay(a):
     S, m = L.get(a["cfg"])
     v = a["v"]
@@ -201,4 +248,6 @@ def run(ctx):
         step = 8 if v in (27, 28) else 1
         for lo in range(step):
             tasks.append(("full", {"v": v, "lo": lo, "step": step}))
+    tasks.append(("aftersign", {"cfgs": ["full", list(curves[0]), list(curves[2])], "ds": [1, 5, 9],
+                                "hs": [("%02x" % b) * 32 for b in (1, 0x35, 0xff)]}))
     ctx.pmap(ME, tasks)
